@@ -23,13 +23,15 @@ func init() {
 				"(remove) RecalculateStakesV2 deletes exactly the tail [100:] of the ordered list and nothing when there are fewer than 100; DeleteCandidate freezes every stake and pending update with its full Value until height+GetUnbondPeriod() and zeroes it; " +
 				"(kick) in recalculateStakes the incoming update is kicked only when the smallest stake is strictly greater than it (an equal incoming stake replaces), the loser of either kind is passed to stakeKick with its own Owner/Value/Coin, and stakeKick hands exactly those to the waitlist.",
 			Assumptions: stdAssumptions,
-			Rules:       []string{"C17.select", "C17.power", "C17.keep", "C17.remove", "C17.kick"},
+			Rules:       []string{"C17.select", "C17.power", "C17.keep", "C17.remove", "C17.kick", "C17.dirty"},
 		},
 		Run: runC17,
 	})
 }
 
 func runC17(c *core.Ctx) {
+	defer checkSelection(c, "C17.select")
+	defer checkNewSetPersisted(c, "C17.dirty")
 	ct := c.Named(pkgCand, "Candidates")
 	if ct == nil {
 		c.Unk("C17.select", "Candidates", token.NoPos, "type not found")
@@ -425,4 +427,106 @@ func checkKick(c *core.Ctx, rec, kick *ssa.Function) {
 		}
 	}
 	c.Check(fwd, rule, "stakeKick/forward", kick.Pos(), "AddToWaitList(owner, pubKey, coin, value) with stakeKick's own parameters", "stakeKick does not put exactly its (owner, candidate, coin, value) on the waitlist")
+}
+
+// checkSelection — C17.select. GetNewCandidates(valCount) yields the validator set: the
+// candidates that are online and hold the minimal stake, in stake order, at most valCount of
+// them. The cut to valCount has to be made on the list of *eligible* candidates: cutting the
+// stake-ordered input first lets every offline or under-staked candidate among the first
+// valCount cost a slot that the next eligible candidate should have had. Decided: every slice
+// expression bounded by the count parameter takes the list the eligibility loop appended to,
+// and that loop ranges over a list that was not cut by the count.
+func checkSelection(c *core.Ctx, rule string) {
+	ct := c.Named(core.PkgState+"/candidates", "Candidates")
+	if ct == nil {
+		c.Unk(rule, "candidates.Candidates", token.NoPos, "type not found")
+		return
+	}
+	fn := c.Method(ct, "GetNewCandidates")
+	if fn == nil || len(fn.Params) < 2 {
+		c.Unk(rule, "GetNewCandidates", token.NoPos, "method not found")
+		return
+	}
+	var count *ssa.Parameter
+	for _, p := range fn.Params[1:] {
+		if isNumeric(p.Type()) {
+			count = p
+		}
+	}
+	if count == nil {
+		c.Unk(rule, "GetNewCandidates/count", fn.Pos(), "the count parameter was not found")
+		return
+	}
+	dependsOnCount := func(v ssa.Value) bool {
+		return v != nil && core.DependsOn(v, func(y ssa.Value) bool { return y == ssa.Value(count) })
+	}
+	isAppend := func(y ssa.Value) bool {
+		call, ok := y.(*ssa.Call)
+		if !ok {
+			return false
+		}
+		b, ok := call.Call.Value.(*ssa.Builtin)
+		return ok && b.Name() == "append"
+	}
+	n := 0
+	for _, b := range fn.Blocks {
+		for _, in := range b.Instrs {
+			sl, ok := in.(*ssa.Slice)
+			if !ok || !(dependsOnCount(sl.High) || dependsOnCount(sl.Low)) {
+				continue
+			}
+			n++
+			fromFilter := core.DependsOn(sl.X, isAppend)
+			c.Check(fromFilter, rule, fmt.Sprintf("GetNewCandidates/cut#%d", n), sl.Pos(), "the list is cut to the validator count after the eligibility filter", "the candidate list is cut to the validator count before offline and under-staked candidates are filtered out: an ineligible candidate among the first "+core.ParamName(count)+" costs a slot, and eligible candidates ranked behind it never become validators")
+		}
+	}
+	c.Check(n >= 1, rule, "GetNewCandidates/cut", fn.Pos(), "the result is limited to the validator count", "GetNewCandidates no longer limits its result to the validator count")
+}
+
+// checkNewSetPersisted — C17.dirty. Validators.Commit rewrites the stored validator list only
+// when some member of the list is marked dirty. SetNewValidators replaces the whole list, so it
+// has to make sure the replacement is written even when it only drops or reorders members: every
+// Validator it builds is created dirty (the constant true, not a flag inherited from the record
+// it replaces). Otherwise a set that only shrank is never persisted and a restarted node (or a
+// reader of the committed state) still has the dropped validator.
+func checkNewSetPersisted(c *core.Ctx, rule string) {
+	vt := c.Named(core.PkgState+"/validators", "Validators")
+	if vt == nil {
+		c.Unk(rule, "validators.Validators", token.NoPos, "type not found")
+		return
+	}
+	fn := c.Method(vt, "SetNewValidators")
+	if fn == nil {
+		c.Unk(rule, "SetNewValidators", token.NoPos, "method not found")
+		return
+	}
+	n := 0
+	for _, g := range append([]*ssa.Function{fn}, c.Helpers(fn)...) {
+		for _, b := range g.Blocks {
+			for _, in := range b.Instrs {
+				al, ok := in.(*ssa.Alloc)
+				if !ok {
+					continue
+				}
+				if nt := namedOf(al.Type()); nt == nil || nt.Obj().Name() != "Validator" || !strings.HasSuffix(nt.Obj().Pkg().Path(), "/validators") {
+					continue
+				}
+				n++
+				var dirty ssa.Value
+				for _, r := range *al.Referrers() {
+					if fa, ok := r.(*ssa.FieldAddr); ok && fieldNameOf(fa) == "isDirty" {
+						for _, fr := range *fa.Referrers() {
+							if st, ok := fr.(*ssa.Store); ok && st.Addr == fa {
+								dirty = st.Val
+							}
+						}
+					}
+				}
+				k, isConst := dirty.(*ssa.Const)
+				c.Check(dirty != nil && isConst && k.Value != nil && k.Value.String() == "true", rule, fmt.Sprintf("SetNewValidators/Validator#%d", n), posOfAlloc(al), "every member of the new set is created dirty, so Commit writes the new list",
+					"a member of the new validator set is not created with isDirty = true: a set change that only removes or reorders members is not written by Commit")
+			}
+		}
+	}
+	c.Check(n >= 1, rule, "SetNewValidators/members", fn.Pos(), "the new set is built here", "SetNewValidators no longer builds the members of the new set: the recogniser does not see the code it is meant to check")
 }
